@@ -108,6 +108,12 @@ func (l *lookup) Exists(key string) bool {
 	return ok
 }
 
+// Key returns the name of a slot. An index that names no slot has no name: the dumps print
+// operands and types as the compiler packed them, and a type that does not fit its packing
+// (the struct key of a map spills into the bits of the element type) unpacks to any number.
 func (l *lookup) Key(index int) string {
+	if index < 0 || index >= len(l.indexToKey) {
+		return "?"
+	}
 	return l.indexToKey[index]
 }
